@@ -175,7 +175,9 @@ def api_table(chk, tmp):
     bath = oqupy.Bath(0.5 * oqupy.operators.sigma("z"), corr)
     par = oqupy.TempoParameters(dt=0.1, epsrel=1e-4, dkmax=2)
     k = 0
+    tables = {}
     for entry in ("pt_tempo_compute", "PtTempo"):
+        tables[entry] = []
         for unique in (False, True):
             for overwrite in (False, True):
                 for exists in (False, True):
@@ -203,6 +205,8 @@ def api_table(chk, tmp):
                     except Exception as ex:
                         chk.fail("api-table-raises", f"{entry}(unique={unique}, overwrite={overwrite}) on {'an existing' if exists else 'a new'} file raises {ex!r}", info)
                         continue
+                    code = 3 if raised else (0 if not exists else (1 if open(fn, "rb").read() != marker else 2))
+                    tables[entry] += [code, -1]
                     if exists and not overwrite:
                         if not raised or open(fn, "rb").read() != marker:
                             chk.fail("clobbered", f"{entry}(unique={unique}, overwrite=False, process_tensor_file=<existing file>) "
@@ -222,10 +226,12 @@ def api_table(chk, tmp):
                         except Exception as ex:
                             chk.fail("remove-crashes", f"remove() raised {ex!r}", info)
                             continue
+                        tables[entry][-1] = 1 if removed else 0
                         if removed != overwrite or (removed == os.path.exists(fn)):
                             chk.fail("remove-guard", f"{entry}(unique={unique}, overwrite={overwrite}): remove() "
                                      + ("deleted a file the object was not entitled to delete" if removed and not overwrite else
                                         "was refused although overwriting was requested" if not removed and overwrite else "is inconsistent with the file system"), info)
+    return tables
 
 
 def run(chk):
@@ -240,7 +246,11 @@ def run(chk):
         expected.append(decision_table(chk, tmp))
         meta.append({"kind": "tables"})
 
-        api_table(chk, tmp)
+        for entry, tab in api_table(chk, tmp).items():
+            # where the entry point refused there is no object to call remove() on: the model's grant is what a user would get
+            exprs.append("api_table")
+            expected.append(("api", tab))
+            meta.append({"kind": "api-table", "entry": entry})
 
         # (b) crash enumeration on the real writers
         jobs = []
@@ -313,6 +323,13 @@ def run(chk):
         chk.disagree("coq evaluation", e)
     for v, exp, m in zip(vals, expected, meta):
         got = ints(v)
+        if isinstance(exp, tuple):
+            # API table: compare open outcomes everywhere, remove() grants where an object was returned (-1: none)
+            tab = exp[1]
+            ok = got is not None and len(got) == len(tab) and all(t == g or (i % 2 == 1 and t == -1) for i, (t, g) in enumerate(zip(tab, got)))
+            if not ok:
+                chk.disagree("api decision table", {"meta": m, "impl": tab, "model": got})
+            continue
         if got != exp:
             chk.disagree("decision table", {"impl": exp, "model": got})
             chk.fail("mode-table", f"file mode / remove decision table differs from the documented one: impl {exp} vs model {got}", {"impl": exp, "model": got})
